@@ -169,3 +169,9 @@ Example C08_static_switch_nonvacuous :
   assembleS true true true true a_defs a_names a_ns 3 = Some (4369, 32, [VInt (un 2); VInt (un 4)], 3%nat) /\
   assembleS true true false true a_defs a_names a_ns 3 = Some (4369, 32, [VInt (un 2); VInt (un 4)], 3%nat).
 Proof. exact switch_nonvacuous. Qed.
+
+(* the hypothesis matches_kinded holds for every rule set that comes from text (a matcher invariant) *)
+From CA Require Import Proofs.MatcherKindP.
+Theorem C08_static_matches_kinded_parsed : forall t defs indexed ns,
+  parse_defs t = Some defs -> matches_kinded indexed defs ns.
+Proof. exact parsed_matches_kinded. Qed.
